@@ -93,6 +93,19 @@ def decorate(d, rng):
         cfg["default_register_access"] = "WO"
     if rng.random() < 0.15:
         cfg["default_field_access"] = "WO"
+    # names that mean something at ANOTHER place of a manifest are ordinary object names inside a block: `config` is the
+    # global-config entry of the top-level map only (seed C16-10 skipped it in every object map); `objects` and
+    # `address_offset` are keys of a block map, not of its `objects` map
+    if rng.random() < 0.15:
+        targets = {o["target"] for o, _ in adef.walk(d["objects"]) if o["kind"] == "ref"}
+        inner = [x for o, _ in adef.walk(d["objects"]) if o["kind"] == "block" for x in o["objects"]
+                 if x["kind"] in ("register", "command", "buffer") and x["name"] not in targets]
+        if inner:
+            x = rng.choice(inner)
+            new = rng.choice(["config", "config", "objects", "address_offset"])      # (not `type`: a Rust keyword cannot be a DSL name)
+            taken = {strip.lower() for strip in (o["name"] for o, _ in adef.walk(d["objects"]))}
+            if new not in taken:
+                x["name"] = new
     for o, _ in adef.walk(d["objects"]):
         if rng.random() < 0.2:
             o["cfg"] = rng.choice(CFG_POOL)
